@@ -100,15 +100,15 @@ def spaces(tier, seed):
     out = [ProductSpace('small{-1,0,1,2}^<=%d' % N, [[-1, 0, 1, 2]] * N, eval_small, min_len=2,
                         describe='every signal of length 2..%d over {-1,0,1,2} x every alternating index sequence' % N,
                         bounds={'values': [-1, 0, 1, 2], 'max_len': N, 'sequences_at_max_len': 2 * len(subsets(N))})]
-    if tier == 'quick':
+    if True:
         out.append(ProductSpace('small{0,1,2}^7', [[0, 1, 2]] * 7, eval_small, min_len=7,
                                 describe='every signal of length 7 over {0,1,2} x every alternating index sequence '
                                          '(three unevenly spaced crossings need 7 samples)'))
         al = S.alphabet(8)
         out.append(ProductSpace('words-W(8,5)', S.word_dims(al, 5), eval_word, bounds={'letters': al},
                                 describe='extrema from find_extrema on all 5-letter words, first_extrema x boundary'))
-    else:
-        al = S.alphabet(8, seed, extra=2)
-        out.append(ProductSpace('words-W(10,5)', S.word_dims(al, 5), eval_word, bounds={'letters': al}))
+    if tier != 'quick':
+        al = S.alphabet(0, seed, extra=2) + S.alphabet(4)
+        out.append(ProductSpace('words-Wextra(6,5)', S.word_dims(al, 5), eval_word, bounds={'letters': al}))
         out.append(ProductSpace('words-W(6,6)', S.word_dims(S.alphabet(6), 6), eval_word, bounds={'letters': S.alphabet(6)}))
     return out
